@@ -189,6 +189,7 @@ pub fn property(_tier: Tier) -> Property {
                 strategy: Box::new(|_t| (0..=12usize, any::<bool>()).prop_map(|(n, tuple)| TypedCase { n, tuple }).boxed()),
                 check: Box::new(check_typed),
             }),
+            crate::props::c13_sim::part(),
         ],
         assumptions: vec!["typed pairing is judged against the simulated MPD of vlib::sim"],
         selftest: None,
